@@ -112,6 +112,7 @@ func (r *stRun) run(b Behaviour, idx int) {
 	}
 	r.res.Behaviours++
 	nw := 0
+	var recalcPark *sim.Parked
 	fetchPark := func(c0 cid.Cid) *sim.Parked {
 		return parkedFor("repl.fetch", func(p *sim.Parked) bool { return p.Args[2].(cid.Cid).Equals(c0) }, 4*time.Second)
 	}
@@ -121,6 +122,35 @@ func (r *stRun) run(b Behaviour, idx int) {
 		case "Init":
 		case "Write":
 			nw++
+			if recalcPark != nil {
+				// a write while the main loop is between the reads and the set of its recalculation: where the two share
+				// a lock the write waits, which the specification of the repaired tree says too (the step is not enabled)
+				done := make(chan error, 1)
+				go func() {
+					_, err := store.(orbitdb.KeyValueStore).Put(ctx, fmt.Sprintf("w%d", nw), []byte("y"))
+					done <- err
+				}()
+				select {
+				case err := <-done:
+					if err != nil {
+						r.violate("write-error", err.Error(), nil, nil)
+						return
+					}
+				case <-time.After(400 * time.Millisecond):
+					r.res.note("%s step %d: the write waits for the main loop's recalculation (not realisable on this tree)", b.ID, si)
+					r.res.Stats["drift"]++
+					h.Release(recalcPark)
+					recalcPark = nil
+					if err := <-done; err != nil {
+						r.violate("write-error", err.Error(), nil, nil)
+						return
+					}
+					goto done
+				}
+				r.res.Steps++
+				r.res.Stats["action_"+st.Action]++
+				continue
+			}
 			if _, err := store.(orbitdb.KeyValueStore).Put(ctx, fmt.Sprintf("w%d", nw), []byte("y")); err != nil {
 				r.violate("write-error", err.Error(), nil, nil)
 				return
@@ -130,6 +160,30 @@ func (r *stRun) run(b Behaviour, idx int) {
 				r.res.Inconclusive = append(r.res.Inconclusive, b.ID+": sync: "+err.Error())
 				return
 			}
+			if fetchPark(chain[r.in.R-1].GetHash()) == nil {
+				r.res.Inconclusive = append(r.res.Inconclusive, fmt.Sprintf("%s step %d: head task did not start", b.ID, si))
+				return
+			}
+		case "AnnRead":
+			// the announcement reaches the main loop, which is held between the reads and the set of its recalculation
+			h.ParkAt("status.recalc", func(args []interface{}) bool { return len(args) > 0 && sim.K(args[0]) == sim.K(store) })
+			if err := store.Sync(ctx, []ipfslog.Entry{copyEntry(chain[r.in.R-1])}); err != nil {
+				r.res.Inconclusive = append(r.res.Inconclusive, b.ID+": sync: "+err.Error())
+				return
+			}
+			if recalcPark = parkedFor("status.recalc", nil, 4*time.Second); recalcPark == nil {
+				r.res.Inconclusive = append(r.res.Inconclusive, fmt.Sprintf("%s step %d: the main loop did not reach its recalculation", b.ID, si))
+				return
+			}
+			h.Unpark("status.recalc") // later recalculations (the writer's) are not held
+			continue
+		case "AnnSet":
+			if recalcPark == nil {
+				r.res.Inconclusive = append(r.res.Inconclusive, fmt.Sprintf("%s step %d: no recalculation is held", b.ID, si))
+				return
+			}
+			h.Release(recalcPark)
+			recalcPark = nil
 			if fetchPark(chain[r.in.R-1].GetHash()) == nil {
 				r.res.Inconclusive = append(r.res.Inconclusive, fmt.Sprintf("%s step %d: head task did not start", b.ID, si))
 				return
